@@ -453,7 +453,7 @@ def check_convert(res, facts, prop):
                                     if a[0] == 'sym' and (a[1].startswith('cached.') or a[1].startswith('self.cached_conversion')):
                                         bad.add(a[1])
                         res.ob('R-HYST', inst + '|result outside the window is history-free', not bad, 'result depends on the previous conversion through %s' % sorted(bad), where, key='R-HYST:history-free:%s' % vname)
-    res.floor('convert_outcomes', n, 6)
+    res.floor('convert_outcomes', n, 4 if prop == 'C08' else 6)   # at least one outcome per input partition (finite, +inf, -inf, NaN) per pre-state analysed
     return n
 
 
